@@ -77,12 +77,55 @@ Definition validate (H : bytes -> bytes) (ttl_ns now_ns : Z) (cookie : bytes) (t
   | _ => false
   end.
 
+(* The AC-Cookie is an OPAQUE token: the property fixes who may be admitted, not the byte layout.  A cookie
+   scheme is a way to pack (tag, timestamp) into bytes and to lay out the MACed message.  [generate]/[validate]
+   above are the scheme /repo HEAD uses (head_scheme); the theorems are proved for every lawful scheme. *)
+Record scheme := {
+  sc_pack : bytes -> bytes -> bytes;              (* tag (32 bytes), timestamp bytes (4) -> cookie *)
+  sc_unpack : bytes -> option (bytes * bytes);    (* cookie -> (tag, timestamp bytes), None = malformed *)
+  sc_msg : tuple -> bytes -> bytes                (* the MACed message for a tuple and timestamp bytes *)
+}.
+Definition ts_of (b : bytes) : N := match b with [a; b; c; d] => be32 a b c d | _ => 0%N end.
+Definition sgenerate (L : scheme) (H : bytes -> bytes) (now_s : N) (t : tuple) : bytes :=
+  let tsb := put32 (now_s mod two32)%N in sc_pack L (H (sc_msg L t tsb)) tsb.
+Definition svalidate (L : scheme) (H : bytes -> bytes) (ttl_ns now_ns : Z) (cookie : bytes) (t : tuple) : bool :=
+  match sc_unpack L cookie with
+  | Some (tag, tsb) =>
+      negb (ttl_ns <? now_ns - Z.of_N (ts_of tsb) * ns_per_s)%Z && bytes_eqb tag (H (sc_msg L t tsb))
+  | None => false
+  end.
+
+(* /repo HEAD: tag(32) | ts(4);  message = mac | svlan | cvlan | ts *)
+Definition head_scheme : scheme := {|
+  sc_pack := fun tag tsb => go_copy (repeat 0%N 32) tag ++ go_copy (repeat 0%N 4) tsb;
+  sc_unpack := fun c => if Nat.eqb (length c) 36 then Some (firstn 32 c, skipn 32 c) else None;
+  sc_msg := fun t tsb => let '(mac, sv, cv) := t in enc_val mac sv cv tsb |}.
+(* another admissible layout: ts(4) | tag(32);  message = ts | mac | svlan | cvlan *)
+Definition alt_scheme : scheme := {|
+  sc_pack := fun tag tsb => go_copy (repeat 0%N 4) tsb ++ go_copy (repeat 0%N 32) tag;
+  sc_unpack := fun c => if Nat.eqb (length c) 36 then Some (skipn 4 c, firstn 4 c) else None;
+  sc_msg := fun t tsb => let '(mac, sv, cv) := t in tsb ++ mac ++ put16 sv ++ put16 cv |}.
+
+(* What the property asks of ANY scheme, in terms of the cookies actually handed out (opaque bytes): a cookie is
+   accepted for tuple t at time now iff it is byte for byte one that was issued for t and is within its lifetime.
+   This is what the correspondence checks the implementation against. *)
+Definition issued_cookie := (bytes * tuple * N)%type.          (* cookie as issued, tuple, issue second *)
+Definition ideal_validate (iss : list issued_cookie) (ttl_ns now_ns : Z) (c : bytes) (t : tuple) : bool :=
+  existsb (fun i => let '(c', t', ts) := i in
+             bytes_eqb c c' && tuple_eqb t t' && negb (ttl_ns <? now_ns - Z.of_N ts * ns_per_s)%Z) iss.
+(* an issued cookie whose issue time lies in the future (the clock was set back) may also be refused *)
+Definition future_dated (iss : list issued_cookie) (now_ns : Z) (c : bytes) : bool :=
+  existsb (fun i => let '(c', _, ts) := i in bytes_eqb c c' && (now_ns <? Z.of_N ts * ns_per_s)%Z) iss.
+
 (* The property constrains ACCEPTANCE ("only for a cookie this BNG issued ... for the same MAC address").  An
    implementation may additionally reject tuples that are no Ethernet tuples (MAC not 6 bytes): for those the
    verdict is admissible when it accepts no more than [validate]; for 6-byte MACs it must equal [validate]. *)
 Definition ethernet_tuple (t : tuple) : bool := let '(mac, _, _) := t in Nat.eqb (length mac) 6.
 Definition admissible_verdict (t : tuple) (model impl : bool) : bool :=
   if ethernet_tuple t then Bool.eqb impl model else implb impl model.
+(* ... the same with the second "may reject" class: cookies dated in the future *)
+Definition admissible_verdict2 (may_reject : bool) (t : tuple) (model impl : bool) : bool :=
+  if may_reject then implb impl model else admissible_verdict t model impl.
 
 (* A history on one CookieManager.  Its state is (secret, ttl); the secret is fixed inside H, so
    the threaded state is the lifetime only — Validate and Generate neither read nor write anything else. *)
@@ -300,14 +343,15 @@ Definition alloc_choice (v : variant) (s : st) (oc : choice) : result (N * N) :=
   | Chose c => if N.ltb 0 c && N.ltb c 65536 && negb (id_used v s c) then Ok (c, next s) else Err 9
   end.
 
-(* environment of one run: HMAC, cookie lifetime, clock, subscriber-group matcher *)
+(* environment of one run: the cookie manager as a black box (what it issues, what it accepts at this moment)
+   and the subscriber-group matcher.  [mk_env] instantiates it with a scheme, an HMAC, a lifetime and a clock. *)
 Record env := {
-  e_H : bytes -> bytes;
-  e_ttl : Z;            (* ns *)
-  e_now_s : N;          (* time.Now().Unix() *)
-  e_now_ns : Z;         (* time.Now() in ns *)
-  e_grp : tuple -> bool (* cfgMgr.LookupSubscriberGroup(svlan, cvlan) matched *)
+  e_gen : tuple -> bytes;          (* cookieMgr.Generate now *)
+  e_val : bytes -> tuple -> bool;  (* cookieMgr.Validate now *)
+  e_grp : tuple -> bool            (* cfgMgr.LookupSubscriberGroup(svlan, cvlan) matched *)
 }.
+Definition mk_env (L : scheme) (H : bytes -> bytes) (ttl_ns : Z) (now_s : N) (now_ns : Z) (grp : tuple -> bool) : env :=
+  {| e_gen := sgenerate L H now_s; e_val := svalidate L H ttl_ns now_ns; e_grp := grp |}.
 
 Inductive op :=
 | PADI (t : tuple)
@@ -342,7 +386,7 @@ Definition padr_begin (v : variant) (e : env) (s : st) (t : tuple) (payload : by
   : option (st * option sess) :=
   match parse_tags payload with
   | Ok tg =>
-      if negb (validate (e_H e) (e_ttl e) (e_now_ns e) (t_cookie tg) t) then Some (s, None)
+      if negb (e_val e (t_cookie tg) t) then Some (s, None)
       else if negb (e_grp e t) then Some (s, None)
       else match alloc_choice v s oc with
            | Ok (sid, n') =>
@@ -368,7 +412,7 @@ Fixpoint take_pend (u : N) (l : list sess) : option (sess * list sess) :=
 Definition step (v : variant) (e : env) (s : st) (o : op) : option (st * out) :=
   match o with
   | PADI t =>
-      if e_grp e t then Some (s, OPado (generate (e_H e) (e_now_s e) t)) else Some (s, ONone)
+      if e_grp e t then Some (s, OPado (e_gen e t)) else Some (s, ONone)
   | PADR t payload oc =>
       match padr_begin v e s t payload oc with
       | Some (s1, Some x) => Some (add_indexes None x s1, OPads (s_sid x) (s_uid x))
